@@ -124,11 +124,25 @@ func heededOrReturned(ci ssa.CallInstruction) (bool, string) {
 		if !core.Dominates(ci, t.If) || t.Fail == t.OK {
 			continue
 		}
-		r := core.ReachCut(ci.Block(), map[[2]*ssa.BasicBlock]bool{{t.If.Block(), t.OK}: true})
 		bad := false
-		for _, ret := range core.Returns(fn) {
-			if r[ret.Block()] && core.ClassifyReturn(ret, d, nil) != core.RetFailure {
+		if t.Value != nil {
+			// from the call: the paths that leave the test by its rejecting edge, knowing the error is not nil there
+			if b, _ := core.FailEdgeBadReturns(t, t.Value, core.ErrNonNil, nil, nil); len(b) > 0 {
 				bad = true
+			}
+			// and no exit between the call and the test (the test is the only way on)
+			r0 := core.ReachCutAvoid(ci.Block(), nil, map[*ssa.BasicBlock]bool{t.If.Block(): true})
+			for _, ret := range core.Returns(fn) {
+				if ci.Block() != t.If.Block() && r0[ret.Block()] && ret.Block() != ci.Block() && core.ClassifyReturn(ret, d, nil) != core.RetFailure {
+					bad = true
+				}
+			}
+		} else {
+			r := core.ReachCut(ci.Block(), map[[2]*ssa.BasicBlock]bool{{t.If.Block(), t.OK}: true})
+			for _, ret := range core.Returns(fn) {
+				if r[ret.Block()] && core.ClassifyReturn(ret, d, nil) != core.RetFailure {
+					bad = true
+				}
 			}
 		}
 		if !bad {
